@@ -1,7 +1,7 @@
-TRUST = "Trusts rustc/cargo, proptest, the harness's own reference model where one is used (cross-checked against published perft counts in every run), and 64-bit hashing for distinct counting. Exploration only: absence of violations is established on the enumerated families, sampled elsewhere."
+TRUST = "Every generated position case may also carry a near-identical twin that the library sees first and a make/unmake history of the board object (DESIGN 5.6). Trusts rustc/cargo, proptest, the harness's own reference model where one is used (cross-checked against published perft counts in every run), and 64-bit hashing for distinct counting. Exploration only: absence of violations is established on the enumerated families, sampled elsewhere."
 
 add("C01", "differential PBT against an independent reference move generator (proptest byte genomes, exhaustive small families, published perft)",
-    "Generated-input search: hundreds of thousands (quick) / millions (thorough) of valid positions from 16 constructive sources per build configuration, a slice of / all 3-man positions and an enumerated 5-man en-passant family; every legal generator is compared move-set-for-move-set with a naive mailbox reference, and every other decider of legality is compared on all 7,781 well-formed moves. Falsification only.",
+    "Generated-input search: hundreds of thousands (quick) / millions (thorough) of valid positions from 20 constructive sources per build configuration, a slice of / all 3-man positions and an enumerated 5-man en-passant family; every legal generator is compared move-set-for-move-set with a naive mailbox reference, and every other decider of legality is compared on all 7,781 well-formed moves. Falsification only.",
     TRUST, "DESIGN.md §6 C01")
 add("C02", "PBT with a reference-legal-set oracle, re-validation identity and unchanged-on-refusal snapshots; walks mixing entry points",
     "Generated positions x all well-formed Move values, UCI strings (all 20,481 for a share of positions) and SAN texts through make_move / make / make_raw / MoveChain::push, plus walks of up to 100 applications: accepted iff reference-legal, result equals the reference apply(), re-validates identically, refusals leave full snapshots unchanged and never panic (both build configurations).",
@@ -33,13 +33,13 @@ add("C10", "PBT with exhaustive per-position enumeration of all 20,481 UCI strin
 add("C11", "differential PBT of the validation gate against reference validity and normalisation over generated raw boards",
     "Raw boards from 5 sources built to hit every rejection reason and normalisation kind (evidence lists hits per class; zero hits = inconclusive): accept <=> reference-valid, reported reason holds, result equals the reference normalisation and is idempotent and internally consistent.",
     TRUST, "DESIGN.md §6 C11")
-add("C12", "totality fuzzing: generated/mutated/multi-byte strings and exhaustive short strings for 11 parser entry points, with format round trip",
+add("C12", "totality fuzzing: generated/mutated/multi-byte strings and exhaustive short strings for 11 parser entry points, in fixed and generated positions, with format round trip",
     "Generated strings (grammar, mutated valid text, multi-byte substitutions with coinciding byte lengths, arbitrary scalar values, ~10 kB inputs) and every string of length <= 3 over a 25-symbol alphabet for each entry point, in release and checked builds: no panic, and parse(format(v)) == v for every accepted value. cargo-fuzz target fuzz_text (thorough) shares the oracle.",
     TRUST, "DESIGN.md §6 C12")
 add("C13", "model-based stateful PBT over MoveChain operation histories (list-of-moves model + replay)",
     "Generated histories of up to 70 operations (pushes through six routes, refused values, pops, outcome operations, clones) interpreted against a (start, moves, outcome) model with reference positions; full move-list and replay comparison; equality/inequality of chains built by different routes.",
     TRUST, "DESIGN.md §6 C13")
-add("C14", "model-based stateful PBT with an occurrence-multiset model of repetitions + exhaustive filter table",
+add("C14", "model-based stateful PBT with an occurrence-multiset model of repetitions + exhaustive filter table + sorted key-change search for positions of one game that share a counter",
     "Shuffle-biased and directed repetition histories, plus one position recurring 70-301 times and unwound, (pops, look-alike positions, clocks near the limits): calc_outcome must be in the model's class (forced > mandatory > claimable > none) with an applicable reason after every operation; set_auto_outcome against an independent filter table for all three filters; Outcome::passes/is_force enumerated over 22 x 3.",
     TRUST, "DESIGN.md §6 C14")
 add("C15", "exhaustive enumeration of all table entries (leapers, pairs, all relevant-blocker subsets) against ray walking, plus random occupancies",
@@ -51,7 +51,7 @@ add("C16", "differential PBT of attack/check queries against reference ray-walki
 add("C17", "model-based PBT of Walker scripts (cursor model) and printing (independently assembled text)",
     "Generated chains x generated walker scripts, and chains of more than 2^16 plies (next/prev/start/end): every returned (position, move) equals an independent replay as a full snapshot and the chain stays untouched; UCI list rebuilds an equal chain; styled() for 3 number policies x 3 styles x 2 status policies equals an independently assembled string.",
     TRUST, "DESIGN.md §6 C17")
-add("C18", "metamorphic PBT: colour mirror and left-right mirror of generated positions",
+add("C18", "metamorphic PBT: colour mirror and left-right mirror of generated positions and of unvalidated boards",
     "Generated positions: the mirrored position must validate unchanged and have exactly the mirrored legal / semilegal / capture move sets and the same check / outcome classification (winner swapped); no reference model involved.",
     "Trusts rustc/cargo, proptest; compares the library with itself under a symmetry of the rules.", "DESIGN.md §6 C18")
 add("C19", "directed search (simulated annealing) for the move-list bound, checked-build execution of all queries, exhaustive magic-index bounds",
